@@ -496,9 +496,14 @@ def _exactly_once(ctx, priv, merged):
     parts = K.list_contributions(sa, qarg.id)
     okq = len(parts) == 1 and 'other' not in parts[0] and \
         not parts[0]['conditional'] and len(parts[0]['domains']) == 1 and \
-        parts[0]['elt'] is not None and parts[0]['var'] is not None and \
-        N.txt(parts[0]['elt']) in ('%s[-1]' % N.txt(parts[0]['var']),
-                                   '%s[5]' % N.txt(parts[0]['var']))
+        parts[0]['elt'] is not None and parts[0]['var'] is not None and (
+            N.txt(parts[0]['elt']) in ('%s[-1]' % N.txt(parts[0]['var']),
+                                       '%s[5]' % N.txt(parts[0]['var'])) or
+            # ... or the entry is destructured where it is iterated and the
+            # last position is kept
+            (isinstance(parts[0]['var'], ast.Tuple) and
+             len(parts[0]['var'].elts) == 6 and
+             N.txt(parts[0]['elt']) == N.txt(parts[0]['var'].elts[5])))
     ctx.ob('C06.5', sa, parts[0].get('node') if parts else None, okq,
            'schedule_alloc maps the queue to instances without a filter',
            construct='queue = [item[-1] for item in util_queue]')
